@@ -218,6 +218,8 @@ func (m *monitor) hook(_ *sim.View, ev *sim.Event) {
 type exec struct {
 	intruded bool  // a third party acts during the current op
 	baseRV   int64 // the store's resource version before any object of the package existed
+	// staleRevRV != 0: the revision controller reads revisions as of this resource version
+	staleRevRV int64
 	c        *kit.Ctx
 	caseName string
 	desc     any
@@ -272,7 +274,14 @@ func must(err error) {
 
 // attach wires clients, the establisher and the monitor to x.w.
 func (x *exec) attach() {
-	x.cl = x.w.Client(actorRev)
+	// the revision controller's client; while x.staleRevRV is set its reads of package revisions are
+	// served as of that resource version (an informer cache that has not caught up yet)
+	x.cl = x.w.LaggingClient(actorRev, func(gk schema.GroupKind) (int64, bool) {
+		if rv := x.staleRevRV; rv != 0 && gk.Group == "pkg.crossplane.io" && strings.HasSuffix(gk.Kind, "Revision") {
+			return -rv, true
+		}
+		return 0, false
+	})
 	x.hc = cacheLikeClient{x.w.Client(actorHarness)}
 	x.setup = x.w.Client(actorSetup)
 	x.est = revision.NewAPIEstablisher(mgrClient{x.cl}, nsXP, x.conc)
